@@ -514,23 +514,24 @@ _C18C = [H("stunrs", CTX + n, tier=t, timeout=2400, mem_gb=14, covers=None, stub
          for (n, t, pat, opt) in (
     ("c18c_noctx_fp_prio", "quick", "36-byte message FINGERPRINT, PRIORITY", "no context"),
     ("c18c_default_fp_prio", "quick", "36-byte message FINGERPRINT, PRIORITY", "default context"),
-    ("c18c_not_ignore_fp_prio", "thorough", "36-byte message FINGERPRINT, PRIORITY", "not_ignore"),
+    ("c18c_not_ignore_fp_prio", "quick", "36-byte message FINGERPRINT, PRIORITY", "not_ignore"),
     ("c18c_noctx_prio_fp_unk", "thorough", "44-byte message PRIORITY, FINGERPRINT, unknown 0x7F02", "no context"),
     ("c18c_not_ignore_prio_fp_unk", "thorough", "44-byte message PRIORITY, FINGERPRINT, unknown 0x7F02", "not_ignore"),
     ("c18c_unknown_data_one", "thorough", "28-byte message with one unknown attribute 0x7F02", "with_unknown_data"),
+    ("c18c_not_ignore_unknown_data", "quick", "44-byte message PRIORITY, FINGERPRINT, unknown 0x7F02", "not_ignore + with_unknown_data"),
     ("c18c_unknown_nodata_one", "thorough", "28-byte message with one unknown attribute 0x7F02", "default context"))]
 FPANY = "Fingerprint::validate -> fp_validate_any (arbitrary verdict per call, calls counted) and raw::get_input_text -> input_text_empty: the CRC primitive and the input selection are environment here (decided in C10/C04); what is decided is which attributes the decoder submits to validation and what a verdict does to the result"
 _C18V = [H("stunrs", CTX + n, tier=t, timeout=2400, mem_gb=14, covers=None, stubs=[NOFMT, TID, REGSMALL, BUILDREC, FPANY], playback=False,
            bounds="36-byte message %s; attribute TYPES concrete, all value bytes / method / class / transaction id symbolic, both validation verdicts symbolic; decoder options: %s" % (pat, opt),
            funcs=["MessageDecoder::decode", "context::validate_attribute", "context::ignore_attribute", "RawMessage::decode", "RawAttributesIter::next"])
          for (n, t, pat, opt) in (
-    ("c18v_validate_fp_prio", "thorough", "FINGERPRINT, PRIORITY", "with_validation"),
+    ("c18v_validate_fp_prio", "quick", "FINGERPRINT, PRIORITY", "with_validation"),
     ("c18v_validate_not_ignore_fp_prio", "thorough", "FINGERPRINT, PRIORITY", "with_validation + not_ignore"),
-    ("c18v_validate_fp_fp", "thorough", "FINGERPRINT, FINGERPRINT", "with_validation"),
+    ("c18v_validate_fp_fp", "quick", "FINGERPRINT, FINGERPRINT", "with_validation"),
     ("c18v_validate_not_ignore_fp_fp", "thorough", "FINGERPRINT, FINGERPRINT", "with_validation + not_ignore"),
     ("c18v_novalidate_fp_fp", "thorough", "FINGERPRINT, FINGERPRINT", "default context"))]
-# the whole-decode queries with validation on (c18v_*) exhaust the memory cap (13-21 GB) and one of them ends in a
-# memory-model failure that is being investigated: not registered.  The unit-level query below is.
+_C18V[-1].covers = 1
+_C18C += _C18V
 _C18C += [H("stunrs", CTX + n, tier="quick", timeout=900, mem_gb=8, covers=(2 if "fingerprint" in n else 1), stubs=[NOFMT, FPANY], playback=False,
             bounds="one %s attribute, every option set (context absent / validation / not_ignore / unknown data), both verdicts of the primitive" % k,
             funcs=["context::validate_attribute", "StunAttribute::as_verifiable_ref", "DecoderContextBuilder::{with_validation,not_ignore,with_unknown_data}"])
@@ -577,3 +578,6 @@ PROPS["C19"] = PROPS["C19"] + [
 # PASSWORD-ALGORITHMS list walk / layout also decide sentences of C02 (layout, zero inner padding) and C03 (arbitrary bytes)
 PROPS["C02"] = PROPS["C02"] + [_pa_layout(3, "quick"), _pa_layout(2, "thorough"), _pa_layout(4, "thorough")]
 PROPS["C03"] = PROPS["C03"] + [_pa_walk(16, "thorough"), _pa_walk(24, "thorough")]
+
+# whole-decode queries that also decide sentences of C09 ("attributes that are not admitted are neither returned nor validated")
+PROPS["C09"] = PROPS["C09"] + [h for h in _C18V if h.name.endswith(("c18v_validate_fp_fp", "c18v_validate_fp_prio"))]
